@@ -2,8 +2,8 @@
      SEQ <id> <class> / O <op> <args..> => <impl result> / END
    runs L0 (Staged) and L1 (VLog) on every op and reports
      MISMATCH  seq idx ... impl=.. l1=..      L1 (model of the code) disagrees with the code
-     L0DIFF    seq idx haz=0|1 ... impl=.. l0=..   the reference model disagrees with the code
-     NOTE      seq idx taint|hazard           ghost facts of the L1 run (only for reported sequences)
+     L0DIFF    seq idx haz=0 ... impl=.. l0=..     the reference model disagrees with the code
+     NOTE      seq idx cp|revert              checkpoint bookkeeping of the run (only for reported sequences)
    plus STATS / COUNT lines. *)
 let rec int_of_pos p = match p with XH -> 1 | XO q -> 2 * int_of_pos q | XI q -> 2 * int_of_pos q + 1
 let fint_of_n x = match x with N0 -> 0 | Npos p -> int_of_pos p
@@ -145,14 +145,11 @@ let () =
                 (match o with OStaging | OCheckpoint -> incr seq_struct | _ -> ())
               end;
               bump ("op:" ^ List.hd opf);
-              let hz = hazard1 !s1 o in
-              if hz then begin haz := true; notes := (!idx, "hazard " ^ String.concat " " opf) :: !notes end;
-              let reg_before = reg1 !s1 in
               let (s0', o0) = (try step0 !s0 o with e -> (!s0, RPanic)) in
               let (s1', o1) = (try step1 !s1 o with e -> (!s1, RPanic)) in
               (match o with
-               | OSet _ when reg1 s1' <> reg_before -> notes := (!idx, "taint " ^ String.concat " " opf) :: !notes
                | OCheckpoint -> notes := (!idx, "cp " ^ show_out o1 ^ " depth=" ^ string_of_int (List.length s1'.stages1)) :: !notes
+               | ORevert _ -> notes := (!idx, "revert " ^ String.concat " " opf ^ " -> " ^ show_out o1) :: !notes
                | _ -> ());
               s0 := s0'; s1 := s1';
               let m1 = show_out o1 and m0 = show_out o0 in
